@@ -57,7 +57,8 @@ var safePathSegmentRe = regexp.MustCompile(`^[A-Za-z0-9._-]+$`)
 
 func (s *Server) getGateKeeper(r *http.Request) sts.GateKeeper {
 	source := getSourceName(r)
-	if source == "" {
+	if source == "" || source == "." || source == ".." {
+		// The source names a directory under the stage, final and log roots
 		return nil
 	}
 	s.lock.RLock()
